@@ -501,7 +501,7 @@ fn relative_to_numeric<F: vcheck::Fl>(s: &mut Sink) {
 }
 
 fn run_everything(tier: Tier, s: &mut Sink) -> (u64, u64) {
-    let depth = tier.pick(2, 3);
+    let depth = tier.pick(3, 3);
     let mut st = (0, 0);
     let add = |a: (u64, u64), b: (u64, u64)| (a.0 + b.0, a.1 + b.1);
     st = add(st, run_dom(&dom_i32(), depth, s));
